@@ -111,6 +111,11 @@ impl MetadataClient for LocalMetadataClient {
         let mut results = Vec::new();
         let mut seen = std::collections::HashSet::new();
 
+        // An inverted range contains no timestamp (and BTreeMap::range panics on it)
+        if range.start > range.end {
+            return Ok(results);
+        }
+
         // Calculate hour buckets that overlap with the range
         let start_bucket = Self::hour_bucket(range.start);
         let end_bucket = Self::hour_bucket(range.end);
